@@ -2,6 +2,7 @@
 import random
 
 from terms import Z, N, P, Some, optZ
+import terms
 
 TASKCONS = ['CStartAt', 'CStartAfter', 'CEndAt', 'CEndBefore', 'CPrecedence', 'CStartSynced', 'CEndSynced',
             'CDontOverlap', 'CContiguous', 'CUGroup', 'COGroup', 'CScheduleN']
@@ -24,7 +25,7 @@ PROFILES = {
     'indicators': dict(dues=[None, 6, 9, 15, 25], horizons=[None, None, 7, 20, 30, 30, 40, 200], cons=dict(task=3, opt=1, fol=0, res=1, buf=1), p_opt=0.35, p_copt=0.05, resources=0.9, p_bad=0.0, ncons=(0, 4),
                        p_buf=0.4, n_ind=(1, 4), p_obj=0.3),
     'buffers':   dict(horizons=[None, None, 20, 30, 30, 40, 200], cons=dict(task=2, opt=1, fol=0, res=0, buf=6), p_opt=0.2, p_copt=0.0, resources=0.2, p_bad=0.0, ncons=(1, 6),
-                      p_buf=1.0, n_ind=(0, 2), p_obj=0.2),
+                      p_buf=1.0, n_ind=(0, 2), p_obj=0.2, p_shared=0.5),
     'objectives': dict(horizons=[None, None, 7, 20, 30, 30, 40, 200], cons=dict(task=3, opt=1, fol=0, res=1, buf=1), p_opt=0.35, p_copt=0.05, resources=0.8, p_bad=0.0, ncons=(0, 4),
                        p_buf=0.3, n_ind=(0, 2), p_obj=1.0),
     'optional_ind': dict(dues=[None, 6, 9, 15, 25], horizons=[None, None, 20, 30, 40, 200], cons=dict(task=3, opt=3, fol=0, res=1, buf=2), p_opt=0.7, p_copt=0.05,
@@ -136,6 +137,23 @@ class Gen:
         if r.random() < self.pf.get('p_obj', 0.0):
             for _ in range(r.choice([1, 1, 1, 2, 2, 3])):
                 self.new_objective()
+        if self.buffers and r.random() < self.pf.get('p_shared', 0.2):
+            # every task that accesses one buffer also holds one common worker (the accesses of a shared worker may still
+            # coincide: a load at the end of one task and an unload at the start of the next one)
+            by_buf = {}
+            for o in self.ops:
+                if o[0] == 'ONewConstraint' and o[3][0] in ('CLoad', 'CUnload') and not o[2]:
+                    us = by_buf.setdefault(terms.nval(o[3][2]), [])
+                    if terms.nval(o[3][1]) not in us:
+                        us.append(terms.nval(o[3][1]))
+            cands = [b for b in sorted(by_buf) if len(by_buf[b]) >= 2]
+            conc = [b for b in cands if self.buffers.get(b, {}).get('conc')]
+            users = by_buf[r.choice(conc or cands)] if cands else []
+            if len(users) >= 2:
+                self.ops.append(('ONewWorker', N(9), Z(1), ('CostConst', Z(0))))
+                dyn = r.random() < 0.3
+                for t in users:
+                    self.ops.append(('OAddRequired', N(t), ('ArgW', ('WPlain', N(9))), dyn, Z(0), Z(0)))
         if r.random() < self.pf['p_bad']:
             return self.malform(self.ops)
         return self.ops
@@ -261,7 +279,7 @@ class Gen:
         else:
             mn = r.choice([0, 0, 1, 2])
             mx = r.choice([None, None, mn + 1, mn + 3, 6])
-            al = r.choice([None, None, None, [1, 3], [2, 4, 5], [3]])
+            al = r.choice([None, None, None, None, None, None, [1, 3], [2, 4, 5], [3], [1, 3], [2, 4, 5], [3], [2, 2, 4], [5, 1, 5, 5, 1], [4, 2, 2]])
             kind = ('KVar', Z(mn), optZ(mx), None if al is None else Some([Z(a) for a in al]))
         opt = r.random() < self.pf['p_opt']
         # release dates and due dates overlap (a due date may lie before another task's release date)
